@@ -622,6 +622,28 @@ pub fn any_server(mut s: Box<dyn RealServer>) -> AnyDec {
     }))
 }
 
+/// Like `any_server`, but behaves like the relay behind the decoder: as soon as a request has been taken (first item),
+/// and after every further item, an answer is encoded through the same codec (a 7-byte stream answer, or a datagram
+/// from 127.0.0.1:53 for datagram-in-stream requests). What the encoder returns is not judged; it is part of the
+/// receiving component and must not panic on a request the decoder has accepted.
+pub fn any_server_answering(mut s: Box<dyn RealServer>) -> AnyDec {
+    AnyDec(Box::new(move |b| {
+        let it = s.decode(b)?;
+        if let Some(it) = &it {
+            let mut dst = BytesMut::new();
+            let _ = match it {
+                SrvItem::Udp(..) => s.encode_udp(b"answer!", "127.0.0.1:53".parse().unwrap(), &mut dst),
+                _ => s.encode_tcp(b"answer!", &mut dst),
+            };
+        }
+        Ok(it.map(|it| match it {
+            SrvItem::Connect(d, a) => vec![Ev::Addr(a), Ev::Bytes(d)],
+            SrvItem::Tcp(d) => vec![Ev::Bytes(d)],
+            SrvItem::Udp(d, a) => vec![Ev::Dgram(d, Some(a))],
+        }))
+    }))
+}
+
 pub fn any_client(mut c: Box<dyn RealClient>) -> AnyDec {
     AnyDec(Box::new(move |b| Ok(c.decode(b)?.map(|d| vec![Ev::Bytes(d)]))))
 }
